@@ -108,6 +108,13 @@ def run(R):
                  (sum(1 for t in table if t[4] == "true"), sum(1 for t in table if t[4] == "false" and per_class["%s/%s" % (t[1], t[2])] == 0)),
                  not unchecked, "imported but never populated: %s" % unchecked)
         R.coverage["store_classes_populated_in_n_histories"] = per_class
+        # multiplicity: a record list that only ever holds one entry cannot show an import / export that handles
+        # a subset (first only, all but the last, ...)
+        listmax = {k[8:]: v for k, v in dist.items() if k.startswith("listmax:")}
+        single = sorted(k for k, v in listmax.items() if v == 1 and k not in ("distributor.fees_treasury",))  # a Coins value
+        R.oblige("multiplicity: every record list of the exported genesis holds >= 2 entries in some history (%d lists)" % len(listmax),
+                 not single, "lists that never hold more than one entry: %s" % single)
+        R.coverage["genesis_list_max_entries"] = listmax
         R.samples = [slim(cases[0], "sample"), slim(cases[len(cases) // 2], "sample")]
         R.coverage.update({"traces_validated_against_impl": total,
                            "input_distribution": {k: v for k, v in dist.items() if k.startswith("step:")},
